@@ -85,8 +85,25 @@ class Ladders:
                 key = dict({'clause': c}, **{k_: v_ for k_, v_ in it['meta'].items() if k_ in ('parameter', 'regime', 'relation', 'base')})
                 res.violation(key, f"{c} fails on ladder {it['meta']}: {json.dumps(wit)[:350]}",
                               {'ladder': [{'x': x, 'input_text': txt} for x, txt in it['rungs']], 'verdict': {k_: v_ for k_, v_ in vd.items() if k_ != 'w'},
-                               'witness': wit, 'meta': it['meta']})
+                               'witness': wit, 'meta': it['meta'], 'clause': it['clause'], 'kind': it['kind'], 'tol': it['tol']})
         if traces:
             res.sample({'ladder': {'clause': traces[0]['clause'], 'kind': traces[0]['kind'], 'rungs': traces[0]['rungs'][:3]},
                         'meta': index[1][0]['meta']})
         return counts
+
+
+def replay_ladder(pid: str, path: str, getters: dict) -> int:
+    """Re-run the recorded ladder of inputs through the real simulator and judge it again with TraceRelation.tla.
+    `getters`: clause -> the projection that clause compares (code, so it cannot live in the replay file)."""
+    data = json.loads(open(path).read())
+    rp = data['replay']
+    res = Result(pid, 'quick')
+    clause = rp.get('clause') or (rp.get('witness') or [{}])[0].get('clause')
+    if clause not in getters or 'ladder' not in rp:
+        print(json.dumps(rp, indent=1)[:3000])
+        raise MachineryFailure(f'replay file carries no re-executable ladder for a known clause (clause={clause})')
+    lad = Ladders()
+    lad.add(clause, rp.get('kind') or data.get('kind'), getters[clause], [(r['x'], r['input_text']) for r in rp['ladder']], rp.get('meta', {}),
+            tol=rp.get('tol', '1e-9'))
+    res.cov['clauses_and_skips'] = lad.run(res)
+    return res.finish()
